@@ -142,7 +142,7 @@ Lemma NC_apply_loop rem m : forall s, Extra_nc s -> Extra_nc (apply_loop rem s m
 Proof.
   induction rem as [|r IH]; intros s H; simpl.
   - destruct (get_m s m) as [x|] eqn:Ex; auto. apply NC_finish_m; auto. exact (H m x Ex).
-  - destruct (get_m s m) as [x|] eqn:Ex; auto. pose proof (H m x Ex) as Hx. destruct (m_bad x).
+  - destruct (get_m s m) as [x|] eqn:Ex; auto. pose proof (H m x Ex) as Hx. destruct (nth (m_idx x) (m_bad x) false).
     + apply IH. apply NC_put_m; auto.
     + pose proof (NC_try_start s m x H Hx) as H1.
       destruct (try_start s m x) as [s' cont]. cbn [fst] in H1. destruct cont; auto.
